@@ -1027,7 +1027,9 @@ def load(f, **options):  # type: (typing.IO, **typing.Any) -> canmatrix.CanMatri
 #        del (db.signal_defines["GenSigStartValue"])
 
     free_signals_dummy_frame = db.frame_by_name("VECTOR__INDEPENDENT_SIG_MSG")
-    if free_signals_dummy_frame is not None and free_signals_dummy_frame.arbitration_id.id == 0x40000000:
+    # BO_ 3221225472 (0xC0000000) is reduced to the extended id 0 by ArbitrationId.from_compound_integer
+    if free_signals_dummy_frame is not None and free_signals_dummy_frame.arbitration_id.extended and \
+            free_signals_dummy_frame.arbitration_id.id in (0, 0x40000000):
         db.signals = free_signals_dummy_frame.signals
         db.del_frame(free_signals_dummy_frame)
 
